@@ -119,6 +119,10 @@ fn c15_poll_header(c: &mut Ctx, v: u32) {
             }
         }
         (Drive::Done(Err(e)), GenericPollPacketState::Header(_)) if v == 0 && e.is_remlen() => {}
+        // an implementation may reset its caller-held state when it returns an error: then only the
+        // outcome (end of input after exactly the header bytes) is observable here, and the value the
+        // state machine decoded is judged through the totals of real packets (C01, C05, C08)
+        (Drive::Done(Err(e)), GenericPollPacketState::Header(_)) if v > 0 && e.is_eof() && rd.pos == 1 + w => c.count("poll-header.state-reset-after-eof"),
         (o, _) => c.violation("C15:poll-header", format!("poll decoder on header 30 {} gave {:?}", hex_short(&want), o_short(o)), vcase(v as u64)),
     }
 }
@@ -156,8 +160,11 @@ fn c15_patterns(c: &mut Ctx) {
                 let mut s = &hb[..];
                 let got = block_on(mqtt_proto::decode_raw_header(&mut s));
                 let consumed = hb.len() - s.len();
+                // a non-minimal spelling of 2-4 bytes (e.g. 80 00) is outside the property: the writer never
+                // produces it, so the reader may decode it (then value and consumption must be right) or refuse it
                 let ok = match (&refd, &got) {
                     (VarDec::Ok(v, n, _), Ok((0x30, x))) => x == v && consumed == 1 + n,
+                    (VarDec::Ok(_, _, false), Err(e)) => !e.is_eof(),
                     (VarDec::TooLong, Err(e)) => conv::v3_err_to_ref(e) == Some(RefErr::VarInt),
                     (VarDec::Incomplete, Err(e)) => e.is_eof(),
                     _ => false,
@@ -195,12 +202,13 @@ fn c15_patterns(c: &mut Ctx) {
                 rd.keep_log = false;
                 let (run, _) = drive_poll_generic(&mut st, &mut rd, PollMode::Keep, 16, None, Pkt::V3, Er::V3);
                 let okm = match (&refd, &run.out) {
-                    (VarDec::Ok(v, n, _), Drive::Done(Err(e))) => {
+                    (VarDec::Ok(v, n, minimal), Drive::Done(Err(e))) => {
                         if *v == 0 {
-                            e.is_remlen() && rd.pos == 1 + n
+                            (e.is_remlen() && rd.pos == 1 + n) || (!*minimal && !e.is_eof())
                         } else {
-                            // body missing: EOF, with the header consumed exactly
-                            e.is_eof() && rd.pos == 1 + n && matches!(&st, GenericPollPacketState::Body(b) if b.header.remaining_len == *v && b.total == *v as usize + 1 + n)
+                            // body missing: EOF, with the header consumed exactly (how the caller-held state
+                            // records the header is the implementation's business: C05 judges resumption)
+                            (e.is_eof() && rd.pos == 1 + n) || (!*minimal && !e.is_eof())
                         }
                     }
                     (VarDec::TooLong, Drive::Done(Err(e))) => e.to_ref() == Some(RefErr::VarInt),
@@ -647,7 +655,12 @@ fn c13_cross(c: &mut Ctx, native: Fam, rp: &RP) {
                     o => c.violation(format!("C13:v{}:continuation-poll", f), format!("decode_with_protocol on the poll state's buffer gave {:?}", o.map(|r| r.map(|p| crate::mon::valid::short(&p)))), case()),
                 }
             } else {
-                c.violation(format!("C13:v{}:poll:state", f), "poll state does not hold the complete body after the error".to_string(), case());
+                // The property's continuation clause is about decoders that read incrementally from a
+                // reader (they stop after name + level); the poll decoder has taken the whole frame from
+                // the transport by then, and whether its caller-held state still exposes the body after an
+                // error is not stated anywhere (an implementation that resets the state on error keeps
+                // every property). Observed, not judged.
+                c.count("poll-state-without-body-after-error");
             }
         }
         o => c.violation(format!("C13:v{}:poll:level{}", f, level), format!("poll decoder returned {}, expected UnexpectedProtocol({})", o_short(&o), level), case()),
